@@ -90,7 +90,7 @@ func schema0(r *rand.Rand, o SchemaOpts) any {
 				dm["$anchor"] = fmt.Sprintf("A%d", i)
 			} else if ok && r.IntN(3) == 0 && o.Draft == D7 {
 				if _, hasRef := dm["$ref"]; !hasRef {
-					dm["$id"] = fmt.Sprintf("#A%d", i)
+					dm["$id"] = fmt.Sprintf(Pick(r, []string{"#A%d", "#A%d", "#n:%d", "#a.b_%d", "#x-%d:"}), i) // (draft-07 plain names may hold ':' and '.')
 				}
 			}
 			defs[fmt.Sprintf("d%d", i)] = d
@@ -389,6 +389,12 @@ func (g *sgen) addKeyword(s map[string]any, kw string, depth int, group string, 
 		vals := make([]any, n)
 		for i := range vals {
 			vals[i] = g.value(2)
+		}
+		if r.IntN(5) == 0 {
+			// strings only, several of them spelling numbers / literals: "1" is not 1, "null" is not null
+			for i := range vals {
+				vals[i] = Pick(r, []string{"0", "1", "2", "-1", "1.5", "1e2", "true", "null", "a", ""})
+			}
 		}
 		s["enum"] = vals
 	case "const":
